@@ -13,9 +13,10 @@ Driver for C01 / C04 (one negotiation model).  Line (fields after the property i
             items `ns.loc.req` or `J` (character data), `Ens.loc.iq.payload` another element,
             `X` stream error, `T` a token that is not a start element; `-` = empty
 * `picks`   `,`-joined names `ns.loc` of the `Negotiate` calls observed on the initiating side
-* `fault`   `-` none, `k` the k-th I/O operation fails, `k+` every operation from the k-th on,
+* `fault`   `/`-separated parts: `-` none, `k` the k-th I/O operation fails, `k+` every operation from the k-th on,
             `Cn` the context is cancelled when `n` events have happened (counting the model's
-            events that are printed)
+            events that are printed), `CB` it is cancelled as soon as an operation blocks,
+            `Hk` the k-th I/O operation blocks (returns only when its deadline passes), `Bk` = `CB/Hk`
 
 Answer: `<events> <outcome> <state>`; events `,`-joined in order (`-` if none): `Wh` header
 written, `R` a read that delivered an item, `Re` read at end of input, `R!`/`Wh!`/`Wl!` failed
@@ -73,9 +74,19 @@ def parsePeer (s : String) : Option Peer :=
     | _ => none
   else none
 
+/-- what the `fault` field of a line describes -/
+structure FaultSpec where
+  fault : Nat → Bool := fun _ => false
+  cancel : List Ev → Bool := fun _ => false
+  block : Nat → Bool := fun _ => false
+
+def isBlockedEv : Ev → Bool
+  | .blocked _ => true
+  | _ => false
+
 /-- the scripted callbacks: behaviour is looked up by feature name (first match, like the
 configuration the harness builds); an unknown feature never reaches a callback -/
-def mkOracle (bs : List Beh) (fault : (Nat → Bool) × (List Ev → Bool)) : Oracle :=
+def mkOracle (bs : List Beh) (fs : FaultSpec) : Oracle :=
   let look (f : Feature) : Option Beh := bs.find? (fun b => b.f.id == f.id)
   { neg := fun _ f _ => match look f with
       | some b => ⟨b.mask, b.restart, b.negErr⟩
@@ -86,8 +97,12 @@ def mkOracle (bs : List Beh) (fault : (Nat → Bool) × (List Ev → Bool)) : Or
     parseErr := fun _ f _ => match look f with
       | some b => b.parseErr
       | none => true
-    fault := fault.1
-    cancel := fault.2 }
+    fault := fs.fault
+    cancel := fs.cancel
+    block := fs.block
+    -- `setDeadline` moves both deadlines (fact `C04_gen_deadline`)
+    dlRd := true
+    dlWr := true }
 
 def showName (n : FName) : String := s!"{n.ns}.{n.loc}"
 
@@ -106,21 +121,31 @@ def showEv : Ev → Option String
   | .listIn _ _ _ _ => none
   | .neg f st _ _ _ _ => some s!"N{showName f.name}@{st.toNat}"
   | .refuse _ => none
+  | .blocked op => some (if op.wr then "Wb" else "Rb")
 
-/-- `(fault, cancel)`; `Cn`: the context is cancelled once `n` events have happened -/
-def parseFault (s : String) : Option ((Nat → Bool) × (List Ev → Bool)) :=
-  let none' : Nat → Bool := fun _ => false
-  let nonec : List Ev → Bool := fun _ => false
-  if s == "-" then some (none', nonec)
+/-- one `/`-separated part: `k` / `k+` failing operations, `Cn` cancel after `n` printed events,
+`CB` cancel as soon as an operation is blocked, `Hk` operation `k` blocks, `Bk` = `CB/Hk` -/
+def parsePart (fs : FaultSpec) (s : String) : Option FaultSpec :=
+  if s == "-" then some fs
+  else if s == "CB" then some { fs with cancel := fun tr => tr.any isBlockedEv }
   else if s.startsWith "C" then do
     let k ← ((s.drop 1).toString).toNat?
-    pure (none', fun tr => decide (k ≤ (tr.filterMap showEv).length))
+    pure { fs with cancel := fun tr => decide (k ≤ (tr.filterMap showEv).length) }
+  else if s.startsWith "H" then do
+    let k ← ((s.drop 1).toString).toNat?
+    pure { fs with block := fun i => i == k }
+  else if s.startsWith "B" then do
+    let k ← ((s.drop 1).toString).toNat?
+    pure { fs with block := fun i => i == k, cancel := fun tr => tr.any isBlockedEv }
   else if s.endsWith "+" then do
     let k ← ((s.dropEnd 1).toString).toNat?
-    pure (fun i => decide (k ≤ i), nonec)
+    pure { fs with fault := fun i => decide (k ≤ i) }
   else do
     let k ← s.toNat?
-    pure (fun i => i == k, nonec)
+    pure { fs with fault := fun i => i == k }
+
+def parseFault (s : String) : Option FaultSpec :=
+  (s.splitOn "/").foldlM parsePart {}
 
 def showCls : ErrCls → String
   | .io => "io" | .cb => "cb" | .policy => "policy" | .streamErr => "streamerr" | .proto => "proto"
@@ -130,6 +155,7 @@ def showOutcome : Pc → String
   | .fail c => "fail:" ++ showCls c
   | .stuck => "stuck"
   | .crash => "PANIC"
+  | .hung _ => "STALL"
   | _ => "fuel"
 
 /-- `run` that stops stepping once a final control point is reached (final points are
